@@ -1,3 +1,221 @@
+/-
+  Driver/C04.lean — replays the C04 harness trace: decoders (generic schema interpreter of C13 over
+  the regenerated schema table), ReadPacket, link-service receive path, stream framing, dispatch.
+-/
 import NdnVerif.Driver.Common
--- stub: replaced by the C04 model driver
-def main : IO Unit := IO.println "DONE lines=0 histories=0 diffs=0 specs=0 skipped=0"
+import NdnVerif.C13.Text
+import NdnVerif.C04.Model
+import NdnVerif.Gen.C13Schemas
+open Ndn Ndn.Driver Ndn.C13 Ndn.C04
+
+def findSchema (n : String) : Option Schema := Ndn.Gen.C13.allSchemas.find? (·.name == n)
+
+/-- value of the field with type number `typ` -/
+def fieldVal : Fields → Vals → Nat → Val
+  | .cons t k fs, .cons v vs, typ => if k.hasTyp && t == typ then v else fieldVal fs vs typ
+  | _, _, _ => .absent
+
+def subFields : Fields → Nat → Fields
+  | .cons t k fs, typ =>
+    if t == typ then (match k with | .struct _ sf => sf | _ => .nil) else subFields fs typ
+  | .nil, _ => .nil
+
+def isPresent : Val → Bool
+  | .absent => false
+  | _ => true
+
+def natOf : Val → Option Nat
+  | .nat n => some n
+  | _ => none
+
+def bytesOf : Val → Option Bytes
+  | .bytes b => some b
+  | _ => none
+
+inductive RP where
+  | err
+  | ok (p : Pkt)
+  | unknown      -- depends on a SHA-256 digest comparison (Interest with ApplicationParameters)
+
+/-- `spec.ReadPacket(enc.NewBufferReader(b))` -/
+def readPacket (s : Schema) (b : Bytes) : RP :=
+  match parse s false b with
+  | .ok vs _ =>
+    let vi := fieldVal s.fields vs 5
+    let vd := fieldVal s.fields vs 6
+    let vl := fieldVal s.fields vs 100
+    let lpInfo : Option LpInfo := match vl with
+      | .struct lv =>
+        let lf := subFields s.fields 100
+        some ⟨natOf (fieldVal lf lv 81), natOf (fieldVal lf lv 82), natOf (fieldVal lf lv 83),
+              bytesOf (fieldVal lf lv 98), bytesOf (fieldVal lf lv 80)⟩
+      | _ => none
+    let pkt : Pkt := ⟨isPresent vi, isPresent vd, lpInfo⟩
+    match vd, vi, vl with
+    | .struct dv, _, _ => if isPresent (fieldVal (subFields s.fields 6) dv 7) then .ok pkt else .err
+    | _, .struct iv, _ =>
+      let f := subFields s.fields 5
+      if !isPresent (fieldVal f iv 7) then .err
+      else if isPresent (fieldVal f iv 46) && !isPresent (fieldVal f iv 36) then .err
+      else if isPresent (fieldVal f iv 36) then .unknown
+      else .ok pkt
+    | _, _, .struct _ => match lpInfo with
+      | some i => if i.fragment.isSome then .ok pkt else .err
+      | none => .err
+    | _, _, _ => .err
+  | _ => .err
+
+inductive Mode where
+  | none | dec (s : Schema) | pkt (s : Schema) | link (s : Schema) | stream | disp (n : Nat)
+
+structure St where
+  mode : Mode := .none
+  -- link: model state
+  cfgThreads : Nat := 1
+  cfgReasm : Bool := true
+  link : LinkSt := { store := [] }
+  synced : Bool := true
+  -- link: spec state (from the implementation's outputs only)
+  prevStore : String := "0/0/0"
+  prevCnt : String := "0/0"
+  frames : Nat := 0
+  frameBytes : Nat := 0
+
+def clsText : Res Vals → String
+  | .ok _ _ => "ok"
+  | .err _ => "err"
+  | .panic => "PANIC model"
+  | .fuel => "FUEL model"
+
+def crashSpec (what key op got : String) : List SpecFail :=
+  if got.startsWith "PANIC" || got.startsWith "CRASH" then [⟨"no-panic", key, s!"{what} crashed on {op.take 160}: {got}"⟩]
+  else if got.startsWith "ALLOC" then [⟨"alloc-linear", key, s!"{what} allocated out of proportion to its input on {op.take 160}: {got}"⟩]
+  else if got.startsWith "TIMEOUT" then [⟨"no-spin", key, s!"{what} did not return on {op.take 160}"⟩]
+  else []
+
+def kv (s key : String) : String :=
+  match (s.splitOn " ").find? (·.startsWith (key ++ "=")) with
+  | some t => (t.drop (key.length + 1)).toString
+  | none => ""
+
+def storeStats (st : List (Nat × List Bytes)) : String :=
+  let slots := (st.map (·.2.length)).sum
+  let bytes := (st.map fun e => (e.2.map (·.length)).sum).sum
+  s!"{st.length}/{slots}/{bytes}"
+
+/-- chunk text of the stream ops: items separated by ',', parts by '.', part = hex or z<count> -/
+def parseChunk (s : String) : Option Bytes :=
+  (s.splitOn ".").foldlM (fun acc part =>
+    if part == "" || part == "-" then some acc
+    else if part.startsWith "z" then (part.drop 1).toString.toNat?.map fun n => acc ++ List.replicate n 0
+    else (bytesOfHexAux part.toList).map fun b => acc ++ b) []
+
+def step (st : St) (op : String) (got : String) : StepResult St :=
+  match op.splitOn " " with
+  | ["new", "dec", name] =>
+    match findSchema name with
+    | some s => { st := { mode := .dec s }, expected := some "ok" }
+    | none => { st := { mode := .none }, expected := some "skip" }
+  | ["new", "pkt"] =>
+    match findSchema "spec_2022.Packet" with
+    | some s => { st := { mode := .pkt s }, expected := some "ok" }
+    | none => { st := { mode := .none }, expected := some "model-has-no-Packet-schema" }
+  | ["new", "link", n, r] =>
+    match findSchema "spec_2022.Packet" with
+    | some s => { st := { mode := .link s, cfgThreads := n.toNat?.getD 1, cfgReasm := r == "1" }, expected := some "ok" }
+    | none => { st := { mode := .none }, expected := some "model-has-no-Packet-schema" }
+  | ["new", "stream"] => { st := { mode := .stream }, expected := some "ok" }
+  | ["new", "disp", n] => { st := { mode := .disp (n.toNat?.getD 1) }, expected := some "ok" }
+  | ["p", ic, hex, cuts] =>
+    match st.mode, bytesOfHex hex with
+    | .dec s, some b =>
+      let key := s.name ++ (if cuts == "-" then ":buf" else ":wire")
+      let sp := crashSpec ("Parse of " ++ s.name) key op got
+      if cuts == "-" then
+        let r := parse s (ic == "1") b
+        { st := st, expected := some (clsText r), spec := sp,
+          cov := [match r with | .ok _ _ => "dec-ok" | _ => "dec-err"], nontrivial := true }
+      else { st := st, expected := none, spec := sp, cov := ["dec-wire"], nontrivial := true }
+    | _, _ => { st := st, expected := some "skip" }
+  | ["rp", hex, cuts] =>
+    match st.mode, bytesOfHex hex with
+    | .pkt s, some b =>
+      let sp := crashSpec "ReadPacket" (if cuts == "-" then "ReadPacket:buf" else "ReadPacket:wire") op got
+      if cuts == "-" then
+        match readPacket s b with
+        | .ok _ => { st := st, expected := some "ok", spec := sp, cov := ["rp-ok"], nontrivial := true }
+        | .err => { st := st, expected := some "err", spec := sp, cov := ["rp-err"], nontrivial := true }
+        | .unknown => { st := st, expected := none, spec := sp, cov := ["rp-digest"] }
+      else { st := st, expected := none, spec := sp, cov := ["rp-wire"] }
+    | _, _ => { st := st, expected := some "skip" }
+  | ["frame", hex] =>
+    match st.mode, bytesOfHex hex with
+    | .link s, some b =>
+      let sp := crashSpec "handleIncomingFrame" "link" op got
+      -- spec on the implementation's own outputs
+      let gStore := kv got "store"
+      let gCnt := kv got "cnt"
+      let frames := st.frames + 1
+      let fbytes := st.frameBytes + b.length
+      let bad := got.startsWith "PANIC" || got.startsWith "ALLOC" || got.startsWith "TIMEOUT" || got.startsWith "CRASH"
+      let spRej :=
+        if !bad && kv got "dec" == "0" &&
+            (kv got "i" != "0" || !(kv got "d").startsWith "0" || gStore != st.prevStore || gCnt != st.prevCnt) then
+          [⟨"reject-no-state-change", "link", s!"a frame that failed to decode changed link state: before store={st.prevStore} cnt={st.prevCnt}, after {got}"⟩]
+        else []
+      let spBound :=
+        match gStore.splitOn "/" with
+        | [_, sl, by_] =>
+          if sl.toNat?.getD 0 > maxFragments * frames || by_.toNat?.getD 0 > fbytes then
+            [⟨"store-bounded", "link", s!"partial message store out of proportion after {frames} frames / {fbytes} bytes: {gStore}"⟩] else []
+        | _ => []
+      let st1 := { st with frames := frames, frameBytes := fbytes,
+                           prevStore := if bad then st.prevStore else gStore, prevCnt := if bad then st.prevCnt else gCnt }
+      if !st.synced then { st := st1, expected := none, spec := sp ++ spRej ++ spBound }
+      else
+        let dec : Bytes → Option Pkt := fun x => match readPacket s x with | .ok p => some p | _ => none
+        let digest := match readPacket s b with | .unknown => true | _ => false
+        if digest then { st := { st1 with synced := false }, expected := none, spec := sp ++ spRej ++ spBound, cov := ["link-digest"] }
+        else
+          let cfg : Cfg := ⟨st.cfgReasm, st.cfgThreads, dec⟩
+          match handleFrame cfg st.link b with
+          | none => { st := st1, expected := some "PANIC model", spec := sp ++ spRej ++ spBound }
+          | some (l', dl) =>
+            let decS := if (dec b).isSome then "1" else "0"
+            let (i, d, tag) := match dl with
+              | .nothing => ("0", "0:", "link-nothing")
+              | .interest => ("1", "0:", "link-interest")
+              | .dataTok t => ("0", s!"1:{t}", "link-data-token")
+              | .dataDrop => ("0", "0:", "link-data-badtoken")
+              | .dataHash => ("0", "1:" ++ ((kv got "d").drop 2).toString, "link-data-hash")
+            let expected := s!"dec={decS} i={i} d={d} store={storeStats l'.store} cnt={l'.nInInterests}/{l'.nInData}"
+            let tags := [tag] ++ (if l'.store.length != st.link.store.length then ["link-store-change"] else [])
+            { st := { st1 with link := l' }, expected := some expected, spec := sp ++ spRej ++ spBound, cov := tags,
+              nontrivial := l'.store.length != st.link.store.length || dl != .nothing }
+    | _, _ => { st := st, expected := some "skip" }
+  | ["st", chunkText] =>
+    match st.mode, (chunkText.splitOn ",").mapM parseChunk with
+    | .stream, some chunks =>
+      let sp :=
+        (if got.startsWith "PANIC" || got.startsWith "CRASH" then [⟨"stream-total", "stream", s!"readTlvStream crashed: {got}"⟩] else []) ++
+        (if got.endsWith "SPIN" || got.startsWith "TIMEOUT" then [⟨"stream-progress", "stream", s!"readTlvStream reached a zero-length read and can no longer make progress: {got.take 100}"⟩] else []) ++
+        (if got.startsWith "ALLOC" then [⟨"alloc-linear", "stream", s!"readTlvStream: {got}"⟩] else [])
+      let (frames, fin) := runStream chunks
+      let e := match fin with
+        | .eof => "eof" | .err => "err" | .spin => "SPIN" | .panic => "PANIC model" | .fuel => "FUEL model"
+      let expected := "frames=" ++ "+".intercalate (frames.map fun f => toString f.length) ++ " " ++ e
+      { st := st, expected := some expected, spec := sp, cov := ["stream-" ++ e], nontrivial := frames.length > 0 }
+    | _, _ => { st := st, expected := some "skip" }
+  | ["tok", hex] =>
+    match st.mode, bytesOfHex hex with
+    | .disp n, some b =>
+      let sp := if isCrash got then [⟨"dispatch-total", "token", s!"GetFWThread crashed for token {hex} with {n} threads: {got}"⟩] else []
+      let e := match getThread n (beDec (b.take 2)) with
+        | some (some i) => s!"thread={i}"
+        | some none => "drop"
+        | none => "PANIC model"
+      { st := st, expected := some e, spec := sp, cov := ["disp-" ++ (e.takeWhile (· != '=')).toString], nontrivial := true }
+    | _, _ => { st := st, expected := some "skip" }
+  | _ => { st := st, expected := some "bad-op" }
+
+def main : IO Unit := Ndn.Driver.run ({} : St) step
